@@ -768,9 +768,10 @@ fn one_request(env: Env, front: Front, host: &str, lab_req: Option<usize>, wait:
 }
 
 fn probe_h1(env: Env, tls: bool) -> Result<(), String> {
+    let t0 = Instant::now();
     match one_request(env, if tls { Front::TlsH1 } else { Front::H1 }, "c0.lab", None, Duration::from_secs(4))? {
         Some(200) => Ok(()),
-        other => Err(format!("expected the backend's 200, got {other:?}")),
+        other => Err(format!("expected the backend's 200, got {other:?} after {} ms", t0.elapsed().as_millis())),
     }
 }
 
@@ -786,8 +787,13 @@ fn probe_h2(env: Env) -> Result<(), String> {
 
 /// as many connections at the same time as the cluster admits per client address: all served
 fn probe_per_ip(env: Env) -> Result<(), String> {
+    let t0 = Instant::now();
     let (statuses, _open) = per_ip_connections(env, PER_IP_LIMIT as usize, false)?;
-    if statuses.iter().all(|s| *s == Some(200)) { Ok(()) } else { Err(format!("{PER_IP_LIMIT} connections at the same time from one address to the cluster that admits {PER_IP_LIMIT} per address were answered {statuses:?}")) }
+    if statuses.iter().all(|s| *s == Some(200)) {
+        Ok(())
+    } else {
+        Err(format!("{PER_IP_LIMIT} connections at the same time from one address to the cluster that admits {PER_IP_LIMIT} per address were answered {statuses:?} (in {} ms)", t0.elapsed().as_millis()))
+    }
 }
 
 /// `n` connections to c3.lab opened one after the other and kept open, one request on each: (statuses, connections)
@@ -799,14 +805,10 @@ fn per_ip_connections(env: Env, n: usize, tls: bool) -> Result<(Vec<Option<u16>>
         let mut c = H1Conn::new(conn);
         c.r.write_all(&request_bytes("c3.lab", &format!("/p{k}"), None, &[])).map_err(|e| format!("write: {e}"))?;
         let _ = c.r.flush();
-        let t0 = Instant::now();
         statuses.push(match c.next_message(Kind::Response { head_request: false }, Instant::now() + Duration::from_secs(4)) {
             ReadOutcome::Message(m) => m.status(),
             _ => None,
         });
-        if std::env::var("VP_C16_DUMP").is_ok() && statuses.last() != Some(&Some(200)) {
-            eprintln!("per-ip connection {k}: {:?} after {:?}", statuses.last(), t0.elapsed());
-        }
         open.push(c);
     }
     Ok((statuses, open))
@@ -1312,7 +1314,7 @@ pub fn scenario(lab: &mut StormLab, case: &Case) -> CheckResult {
         .collect();
     let storm = format!("{} interactions, {} at a time: [{}]", interactions.len(), workers, kinds.join(", "));
     if std::env::var("VP_C16_DUMP").is_ok() {
-        eprintln!("storm (case seed {}): {storm}; details: {:?}", case.seed, seen.iter().filter_map(|s| s.as_ref().err()).collect::<Vec<_>>());
+        eprintln!("storm (case seed {}): {storm}; details: {:?}; case: {}", case.seed, seen.iter().filter_map(|s| s.as_ref().err()).collect::<Vec<_>>(), serde_json::to_string(case).unwrap_or_default());
     }
 
     // ---- phase 1: clients that went idle still hold their sockets, open and silent: the worker's own
@@ -1439,7 +1441,24 @@ pub fn child(args: &Args, total: u64) -> Stats {
                 StormLab::new()
             }
         };
-        let r = scenario(&mut lab, case);
+        let mut r = scenario(&mut lab, case);
+        // debugging aid for history-dependent behaviour: VP_C16_REPEAT=n runs the scenario n more times on
+        // the same worker, each time preceded by the scenario in the file named by VP_C16_PRE (a Case as JSON)
+        if let Some(n) = std::env::var("VP_C16_REPEAT").ok().and_then(|v| v.parse::<u32>().ok()) {
+            let pre: Option<Case> = std::env::var("VP_C16_PRE").ok().and_then(|f| std::fs::read_to_string(f).ok()).and_then(|t| serde_json::from_str(&t).ok());
+            for i in 0..n {
+                if r.is_err() {
+                    eprintln!("repeat {i}: failed");
+                    break;
+                }
+                if let Some(p) = &pre {
+                    if let Err(f) = scenario(&mut lab, p) {
+                        eprintln!("repeat {i}: the preceding scenario failed: {} {}", f.signature, f.message);
+                    }
+                }
+                r = scenario(&mut lab, case);
+            }
+        }
         // a lab that saw a failure is not reused
         let keep = matches!(&r, Ok(rep) if !rep.classes.iter().any(|c| c == "lab_dirty"));
         *labcell.borrow_mut() = if keep { Some(lab) } else { None };
